@@ -110,6 +110,22 @@ def gen_image(rng, n, style):
 
 
 def gen_case(rng):
+    if rng.random() < 0.08:
+        # closely spaced bands (red edge / NIR, hyperspectral: neighbours less than 10 % apart) stored in another order in the reference: every
+        # positional pair is within the tolerance, and yet the nearest reference band of a source band is not the one at its position
+        n = rng.randint(2, 4)
+        start = rng.randrange(0, 5 - n)
+        wls = [0.705, 0.74, 0.783, 0.842][start:start + n]
+        src = [dict(ci=4, maskdesc=False, cw=w) for w in wls]
+        ref = [dict(ci=4, maskdesc=False, cw=w * rng.choice([1.0, 0.995, 1.005])) for w in wls]
+        perm = list(range(n))
+        while perm == list(range(n)):
+            if rng.random() < 0.5:
+                perm = [i + 1 if i % 2 == 0 and i + 1 < n else (i - 1 if i % 2 == 1 else i) for i in range(n)]      # neighbours swapped
+            else:
+                rng.shuffle(perm)
+        ref = [ref[i] for i in perm]
+        return src, ref, None, None, False
     if rng.random() < 0.12:
         # a user selection of reference bands in which bands WITHOUT a wavelength (quality / mask-like bands) stand among - typically ahead of -
         # the bands that match the source's wavelengths within the tolerance: positions in the selection and positions among the bands that
@@ -192,4 +208,20 @@ def spec_check(src, ref, sb, rb, force, obs):
         want = sb if sb else None
         if want is not None and len(s) != len(want):
             return 'a selected source band was silently dropped'
+        # nearest-band clause: every band that takes part carries a wavelength, each source band has ONE nearest reference band and these are
+        # pairwise distinct -> every source band is matched to its nearest band, whatever the order of the bands in either file
+        usable = lambda im, j: im[j - 1]['ci'] != 3 and not im[j - 1]['maskdesc']       # noqa: E731
+        s_all = [j for j in (sb or range(1, len(src) + 1)) if 1 <= j <= len(src) and usable(src, j)]
+        r_all = [j for j in (rb or range(1, len(ref) + 1)) if 1 <= j <= len(ref) and usable(ref, j)]
+        if s_all == list(s) and len(set(r_all)) == len(r_all) and all(src[j - 1]['cw'] for j in s_all) and all(ref[j - 1]['cw'] for j in r_all):
+            near = []
+            for x in s:
+                ds = sorted((abs(src[x - 1]['cw'] - ref[j - 1]['cw']) / src[x - 1]['cw'], j) for j in r_all)
+                if len(ds) >= 2 and not ds[0][0] < ds[1][0]:
+                    near = None
+                    break
+                near.append(ds[0][1])
+            if near is not None and len(set(near)) == len(near) and list(r) != near:
+                k_ = next(i for i in range(len(near)) if r[i] != near[i])
+                return f'source band {s[k_]} is matched to reference band {r[k_]} although its nearest reference band is {near[k_]} (nearest bands pairwise distinct)'
     return None
